@@ -54,7 +54,7 @@ def report(ctx, transport, history, findings, replay, classify=None) -> None:
 # IP
 # ---------------------------------------------------------------------------------------------
 
-IP_ALPHABET = "123GRFXCT"
+IP_ALPHABET = "123GRFXCTE"
 
 
 async def ip_history(ctx, history: str, key) -> None:
@@ -76,7 +76,7 @@ async def ip_history(ctx, history: str, key) -> None:
 
     w.accessory.script_for = lambda host, attempt: simnet.ConnScript(responder=responder)
     replay = {"t": "ip", "history": history, "key": key}
-    ctx.case("ip", history, nontrivial=any(c in history for c in "RFXCT"), sample={"transport": "ip", "history": history}, kind="ip-rand" if len(history) > 7 else "ip")
+    ctx.case("ip", history, nontrivial=any(c in history for c in "RFXCTE"), sample={"transport": "ip", "history": history}, kind="ip-rand" if len(history) > 7 else "ip")
 
     def current():
         for c in reversed(w.accessory.conns):
@@ -131,6 +131,20 @@ async def ip_history(ctx, history: str, key) -> None:
                 fr = bytearray(frames[0])
                 fr[rng.randrange(2, len(fr))] ^= 1 << rng.randrange(8)
                 conn.transport.write(bytes(fr))
+            elif a == "E" and conn is not None:
+                # a genuine frame with ZERO plaintext bytes (length 0 + tag: it consumes a counter value like any other),
+                # then the same bytes again: the replay must not authenticate
+                keyb = conn.exchange.accessory_to_controller_key
+                fr = conn.encoder.frame(b"", allow_empty=True)
+                idx = counters.get(conn.index, 0)
+                counters[conn.index] = idx + 1
+                mon.register_genuine(keyb, fr[2:], idx)
+                sent_frames.setdefault(conn.index, []).append(fr)
+                conn.transport.write(fr)
+                await vloop.settle()
+                if conn.is_open:
+                    conn.transport.write(fr)
+                    ctx.count("ip_empty_frames_replayed")
             elif a == "C":
                 for t in tasks:
                     if not t.done():
@@ -281,7 +295,7 @@ async def ble_history(ctx, history: str, key, cancel_at=None) -> None:
 # CoAP
 # ---------------------------------------------------------------------------------------------
 
-COAP_ALPHABET = "GRSFCNTXYegsc"
+COAP_ALPHABET = "GRSFCNTXYegscb"
 
 
 class _Resp:
@@ -314,8 +328,10 @@ async def coap_history(ctx, history: str, key) -> None:
         st["produced"].append(ct)
         return ct
 
-    def produce_event(iid=10):
+    def produce_event(iid=10, bad=False):
         plain = b"".join([b"\x04" + iid.to_bytes(2, "little") + (3).to_bytes(2, "little") + b"\x01\x01\x01"])
+        if bad:
+            plain += b"\x04" + (11).to_bytes(2, "little") + (3).to_bytes(2, "little") + b"\x02\x01\x01"
         ct = a_event.encrypt(sim_coap.nonce(st["ec"]), plain, b"")
         st["egenuine"][hashlib.sha256(ct).digest()] = st["ec"]
         st["ec"] += 1
@@ -395,7 +411,7 @@ async def coap_history(ctx, history: str, key) -> None:
     conn.info = Info()
     resource = cmod.EventResource(conn)
     replay = {"t": "coap", "history": history, "key": key}
-    ctx.case("coap", history, nontrivial=any(c in history for c in "RSFCNTXYZgsc"), sample={"transport": "coap", "history": history}, kind="coap-rand" if len(history) > 6 else "coap")
+    ctx.case("coap", history, nontrivial=any(c in history for c in "RSFCNTXYZgscb"), sample={"transport": "coap", "history": history}, kind="coap-rand" if len(history) > 6 else "coap")
     ended = False
     try:
         for a in history:
@@ -424,7 +440,16 @@ async def coap_history(ctx, history: str, key) -> None:
             else:
                 from aiocoap import Message
 
-                if a == "e":
+                if a == "b":
+                    # a genuine event (authenticates at the current counter) whose SECOND entry is malformed, so that its
+                    # processing fails after decryption and after the first entry was dispatched; then the same datagram
+                    # again: it consumed its counter value and must not be accepted a second time
+                    payload = produce_event(bad=True)
+                    try:
+                        await resource.render_put(Message(code=Code.PUT, payload=payload))
+                    except Exception:  # noqa: BLE001 - the failing entry is the accessory's fault; the replay is judged
+                        ctx.count("coap_event_processing_failed_after_decrypt")
+                elif a == "e":
                     payload = produce_event()
                 elif a == "g":
                     payload = rng.choice(st["events"]) if st["events"] else produce_event()
@@ -524,7 +549,7 @@ def run(ctx) -> None:
             idx += 1
             if ctx.mine(idx):
                 await coap_history(ctx, h, ("directed", h))
-        ctx.exhaustive_parts[f"all histories to depth {d_ip} (IP, 9 actions), {d_ble} (BLE, 7), {d_coap} (CoAP, 13)"] = True
+        ctx.exhaustive_parts[f"all histories to depth {d_ip} (IP, 10 actions), {d_ble} (BLE, 7), {d_coap} (CoAP, 14)"] = True
         # BLE cancellation sweep: cancel at every loop iteration of a request (after 0-2 earlier requests)
         for pre in ("", "r", "wr"):
             for k in range(1, ctx.pick(60, 120)):
@@ -537,11 +562,11 @@ def run(ctx) -> None:
             t = k % 3
             n = rng.randint(8, 40)
             if t == 0:
-                await ip_history(ctx, "1" + "".join(rng.choice("112233GGGGRFXCT") for _ in range(n)), ("r", ctx.shard, k))
+                await ip_history(ctx, "1" + "".join(rng.choice("112233GGGGRFXCTE") for _ in range(n)), ("r", ctx.shard, k))
             elif t == 1:
                 await ble_history(ctx, "".join(rng.choice("rrrwwPUKct") for _ in range(min(n, 16))), ("r", ctx.shard, k))
             else:
-                await coap_history(ctx, "".join(rng.choice("GGGGGRSFCNXYZeeegsc") for _ in range(n)), ("r", ctx.shard, k))
+                await coap_history(ctx, "".join(rng.choice("GGGGGRSFCNXYZeeegscb") for _ in range(n)), ("r", ctx.shard, k))
 
     vloop.run(main())
 
